@@ -207,5 +207,5 @@ if new_v or native_rc == 1:
     sys.exit(1)
 if inconclusive or native_rc != 0:
     sys.exit(2)
-print("OK property=%s held on everything explored%s" % (prop, " (native + release profile + libFuzzer/ASan + Miri)" if layers else ""))
+print("OK property=%s held on everything explored%s" % (prop, (" (native + " + " + ".join(sorted(layers)) + ")") if layers else ""))
 sys.exit(0)
